@@ -28,12 +28,22 @@ REF = {
     # first, float() accepts any Unicode decimal digit
     'float_ctor_domain': (r'^_*[-+]?_*(?:\._*[iI]_*[nN]_*[fF]_*|\._*[nN]_*[aA]_*[nN]_*'
                           r'|[-+]?_*(?:\d[\d_]*(?:\.[\d_]*)?|\._*\d[\d_]*)(?:[eE]_*[-+]?_*\d[\d_]*)?)$', 0),
+    # sound under-approximations of the domains of construct_yaml_int / construct_yaml_timestamp (ASCII digits; days 1-28)
+    'int_ctor_domain': (r'^_*[-+]?_*(?:0_*|0b_*[01][01_]*|0x_*[0-9a-fA-F][0-9a-fA-F_]*|0_*[0-7][0-7_]*'
+                        r'|[1-9][0-9_]*(?::_*[0-9][0-9_]*)*)$', 0),
+    'timestamp_ctor_domain': (r'^(?:[1-9][0-9]{3}|0[1-9][0-9]{2}|00[1-9][0-9]|000[1-9])-(?:0?[1-9]|1[0-2])-(?:0?[1-9]|1[0-9]|2[0-8])'
+                              r'(?:(?:[Tt]|[ \t]+)(?:[01]?[0-9]|2[0-3]):[0-5][0-9]:[0-5][0-9](?:\.[0-9]*)?'
+                              r'(?:[ \t]*(?:Z|[-+](?:0?[0-9]|1[0-9]|2[0-3])(?::[0-5][0-9])?))?)?$', 0),
     # what SafeRepresenter.represent_float writes: repr(float).lower() with '.0' before a bare exponent
     'float_repr': (r'^(?:-?[0-9]+\.[0-9]+(?:e[-+][0-9]+)?|\.nan|-?\.inf)$', 0),
 }
 
 _FLOAT_CTOR_FACTS = ["value.replace('_', '').lower()", "value == '.inf'", "value == '.nan'", 'float(value)',
                      "if value[0] in '+-':"]
+_INT_CTOR_FACTS = ["value.replace('_', '')", "value.startswith('0b')", 'int(value[2:], 2)', "value.startswith('0x')",
+                   'int(value[2:], 16)', 'int(value, 8)', "value.split(':')", 'sign * int(value)']
+_TS_CTOR_FACTS = ['self.timestamp_regexp.match(node.value)', 'datetime.date(year, month, day)',
+                  'datetime.datetime(year, month, day, hour, minute, second, fraction']
 _FLOAT_REPR_FACTS = ["value = '.nan'", "value = '.inf'", "value = '-.inf'", 'repr(data).lower()',
                      "value.replace('e', '.0e', 1)"]
 
@@ -62,6 +72,8 @@ class ResolverModel:
         self.T0 = saved
         _facts(P, 'yaml.constructor:SafeConstructor.construct_yaml_float', _FLOAT_CTOR_FACTS)
         _facts(P, 'yaml.representer:SafeRepresenter.represent_float', _FLOAT_REPR_FACTS)
+        _facts(P, 'yaml.constructor:SafeConstructor.construct_yaml_int', _INT_CTOR_FACTS)
+        _facts(P, 'yaml.constructor:SafeConstructor.construct_yaml_timestamp', _TS_CTOR_FACTS)
         self.bool_values = self._bool_values()
         pats = set()
         for tab in (self.pristine, self.T_load, self.T_dump):
